@@ -43,7 +43,7 @@ def check(case: dict):
         from maze_dataset.generation.generators import GENERATORS_MAP
 
         L.seed_globals(case["np_seed"], case["py_seed"])
-        mine = tuple(kw["start_coord"]) if form == "tuple" else np.array(kw["start_coord"])
+        mine = tuple(kw["start_coord"]) if form == "tuple" else np.array(kw["start_coord"], dtype=np.int8 if form == "ndarray-int8" else None)
         m = call(f"C12:{name}", GENERATORS_MAP[name], np.array([r, c]), **{**kw, "start_coord": mine})
         if form == "ndarray-reused":
             mine += 1
@@ -143,7 +143,7 @@ def _biased(draw, hi):
     elif name == "gen_dfs_percolation":
         kw["p"] = draw(st.sampled_from([0.0, 0.05, 0.1, 0.2, 0.4, 1.0]) | st.floats(0, 1, allow_nan=False))
         if draw(st.booleans()):
-            kw["accessible_cells"] = draw(st.integers(0, rc + 2))
+            kw["accessible_cells"] = draw(st.integers(0, rc + 2) | st.sampled_from([rc // 2, rc // 2, rc // 4, rc - 1, rc]))
         if draw(st.booleans()):
             kw["max_tree_depth"] = draw(st.integers(0, 2 * (r + c)))
         if draw(st.booleans()):
@@ -151,7 +151,7 @@ def _biased(draw, hi):
     out = {"gen": name, "r": r, "c": c, "kw": kw,
            "np_seed": draw(st.integers(0, 2**32 - 1)), "py_seed": draw(st.integers(0, 2**32 - 1))}
     if "start_coord" in kw:
-        out["start_form"] = draw(st.sampled_from([None, "tuple", "ndarray", "ndarray-reused"]))
+        out["start_form"] = draw(st.sampled_from([None, "tuple", "ndarray", "ndarray-reused", "ndarray-int8", "ndarray-int8"]))
     else:
         form = draw(st.sampled_from(["int64", "int64", "int8", "int8", "int16", "int32"] + ([] if name == "gen_wilson" else ["tuple", "list"])))
         if form != "int64":
